@@ -562,7 +562,38 @@ func TestC13(t *testing.T) {
 			}
 		}
 	}
+	for i := 0; i < run.Pick(4, 64); i++ {
+		id := fmt.Sprintf("nack-flood/%d", i)
+		if !run.Mine(i) || !run.Want(id) {
+			continue
+		}
+		run.Journal(id, "start")
+		var res []*c01Result
+		err := Bubble(t, func() { res = runC13NackFlood(run, run.Seed()*31+int64(i), i%4) })
+		if err != nil {
+			res = append(res, &c01Result{"C13/bubble", err.Error()})
+		}
+		for _, r := range res {
+			run.Violation(id, r.Key, r.What, map[string]any{"indirect_checks": i % 4})
+		}
+	}
+	for i := 0; i < run.Pick(2, 16); i++ {
+		id := fmt.Sprintf("merge-cap/%d", i)
+		if !run.Mine(i+1) || !run.Want(id) {
+			continue
+		}
+		run.Journal(id, "start")
+		var res []*c01Result
+		err := Bubble(t, func() { res = runC13MergeCap(run, run.Seed()*37+int64(i), 150+10*i) })
+		if err != nil {
+			res = append(res, &c01Result{"C13/bubble", err.Error()})
+		}
+		for _, r := range res {
+			run.Violation(id, r.Key, r.What, nil)
+		}
+	}
 	if !run.Replaying() {
+		run.Require("nack-flood|indirect=1", "merge-cap|offered=150")
 		run.Require("odd|pushpull-join=true|left-alone|merge", "odd|pushpull-join=true|alone|merge+alive", "odd|gossip|with-peers|alive", "odd|pushpull-join=false|left-with-peers|none")
 	}
 	run.Sample(map[string]any{"cfg": c13Cfgs[0].String(), "example_inputs": []string{"every truncation of a sealed ping", "compound announcing 255 parts with no table", "push/pull header declaring 2^20+1 nodes + 64 KiB filler"}})
